@@ -323,12 +323,32 @@ structure Absorb where
   unnamed : List String       -- names of its operands/results that the source does not have
 deriving Repr
 
+/-- does the output tensor `t` carry the name of a source tensor? -/
+def knownInSource (src out : PGraph) (t : Nat) : Bool :=
+  match nameAt out t with
+  | some n => (findByName src n).isSome
+  | none => false
+
+/-- Vela may create new tensors *between two Ethos-U operators* (e.g. `<name>_sub` when a concatenation is written
+    in place across a CPU detour). Such an operand is replaced by the operands of the Ethos-U operator producing it. -/
+def expandOperands (src out : PGraph) : Nat → List Nat → List Nat
+  | 0, ts => ts
+  | fuel + 1, ts => ts.flatMap fun t =>
+      if knownInSource src out t then [t] else
+      match out.ops.find? fun o => isEthosU o && o.outputs.contains t with
+      | some o => expandOperands src out fuel (ethosuOperands o)
+      | none => [t]
+
+/-- a result of an Ethos-U operator that is not a source tensor is tolerated when only Ethos-U operators read it -/
+def privateResult (out : PGraph) (t : Nat) : Bool :=
+  !out.outputs.contains t && out.ops.all fun o => isEthosU o || !(presentInputs o).contains t
+
 def absorbOf (src out : PGraph) (op : POp) (k : Nat) : Absorb :=
   let names (l : List Nat) : List String := l.filterMap (nameAt out)
   let lookup (l : List String) : List Nat := l.filterMap (findByName src)
   let missing (l : List String) : List String := l.filter fun n => (findByName src n).isNone
-  let outs := names op.outputs
-  let ins := names (ethosuOperands op)
+  let outs := names (op.outputs.filter fun t => knownInSource src out t || !privateResult out t)
+  let ins := names (expandOperands src out out.ops.length (ethosuOperands op))
   let start := lookup outs
   let stop := lookup ins
   { pos := k, start := start, stop := stop, ops := slice src start stop, unnamed := missing outs ++ missing ins }
